@@ -3,12 +3,58 @@
 TLC: Statements.tla - the lazily committing statement-stream machine against the declarative mirror (NoLossNoDup,
 DocAttached, HeaderMirror, FlagsMirror, NeutralInsert, FinalNewline) for every line sequence over the alphabet.
 Binding B: the parser / builder steps recorded while the repository's own tests read their definitions are validated
-by TLC against the step-level machine (TraceStatements.tla).
+by TLC against the step-level machine (TraceStatements.tla); so are the steps of reading every (quick: every second) single
+token mutation of Funnel.tla's three seed definitions - mostly rejected texts, with dependencies read in nested frames.
 Binding A: every TLC state is rendered as DSDL text in several formatting variants, read with read_namespace,
 projected and compared with `out`; accepted models are rendered back to canonical DSDL and re-read.
 """
 from __future__ import annotations
-from .. import stmt_replay, tlaval, stmttrace
+from .. import stmt_replay, tlaval, stmttrace, core, tlc
+
+@core.safe
+def mutation_trace_worker(arg):
+    """One token mutation of Funnel.tla's machine, read under the hooks: the statement events of the read (and of the reads of
+    its dependencies nested in it)."""
+    block, mod = arg
+    if core.pick(block, "c03mt", mod) != 0:
+        return None
+    from . import c13
+    from .. import funnel_seeds as fs, dsdlio
+    st = tlaval.parse_state_block(block)
+    if st["ph"] < 2:
+        return None
+    text = c13.join(c13.apply_ops(fs.SEEDS[st["case"]["seed"] - 1], st["case"]["ops"]))
+    if c13.unbounded(text):
+        return None
+    files = dict(fs.DEP_FILES)
+    files.update(fs.LOOKUP_FILES)
+    files["ns/A.1.0.dsdl"] = text
+    from pydsdl import _verif_trace
+    with dsdlio.Tree(files, "c03mt") as tr:
+        _verif_trace.drain()
+        status, _res, _ = dsdlio.read_ns(tr.path("ns"), [tr.path("lk/dep2")])
+        evs = [e for e in _verif_trace.drain() if e["ev"] in ("read_begin", "read_end", "stmt", "flush", "commit", "eol", "finalize")]
+    return {"events": evs, "text": text, "status": status}
+
+def validate_mutation_traces(ctx, mod):
+    """Binding B over faulty texts: every single token mutation (sampled 1 in `mod`) of the three seed definitions is read
+    under the hooks and each recorded parser / builder step is judged by TLC against TraceStatements.tla."""
+    res = tlc.run("MC_Funnel", "Funnel_mut1.cfg", dump=True, tag="c03mt", timeout=3000)
+    ctx.add_tlc(res, "Funnel_mut1.cfg")
+    blocks = tlaval.split_dump_blocks(res.dump_path)
+    tlc.cleanup(res)
+    evs, texts, rejected = [], [], 0
+    for r in core.pmap(mutation_trace_worker, [(b, mod) for b in blocks], chunksize=100):
+        if not r:
+            continue
+        if "harness_exception" in r:
+            raise tlc.MachineryError("mutation trace worker failed: %s" % r)
+        # one entry of `texts` per read_begin (nested reads of dependencies carry the referrer's text)
+        texts.extend([r["text"]] * sum(1 for e in r["events"] if e["ev"] == "read_begin"))
+        evs.extend(r["events"])
+        rejected += r["status"] == "err"
+    ctx.extra["mutation_statement_trace"] = dict(stmttrace.validate_events(ctx, evs, "token mutations of the seed definitions", texts=texts),
+                                                 rejected_reads=rejected)
 
 def run(ctx):
     ctx.rule = ("TLC enumerates every sequence of abstract lines (kind x comment flag) up to MaxLines over the mirror, scope (constants named alike in the request and response part, read by later constants and @print; up to 7 lines) and "
@@ -35,6 +81,7 @@ def run(ctx):
                     break
     # Binding B over executions not generated from the specification: the repository's own tests under the hooks
     stmttrace.validate_repo_suite(ctx)
+    validate_mutation_traces(ctx, 2 if ctx.tier == "quick" else 1)
     ctx.sample({"lines": [{"k": "field", "c": True}, {"k": "empty", "c": True}, {"k": "sealed", "c": False}],
                 "rendered": stmt_replay.render([{"k": "field", "c": True}, {"k": "empty", "c": True},
                                                 {"k": "sealed", "c": False}], ctx.seed, 1)})
